@@ -19,7 +19,7 @@ PROPS = {
                        "reconstruction, pipeline glue) are tied to the code by the fmt/lex streams; the wrapper frame (wc) and the "
                        "no-dangling-E3 side condition (nd) are evaluated by the Lean driver on every case.",
         "assumptions": ["WrapFrame (wrapper keeps token vector, changes only blanks of contents) - checked per case (wc=1)",
-                        "token contents have no dangling E3 byte (consequence of valid UTF-8; checked per case, nd=1)"],
+                        "input is well-formed UTF-8 (a Rust &str); for other byte strings C01_format_partial with the per-case nd check applies"],
     },
     "C02": {
         "level": "other",
@@ -108,7 +108,7 @@ PROPS = {
         ],
         "oracle_prefixes": ["c04", "c15: PANIC"],
         "abnormal_binding": True,
-        "explanation": "Monitor + theorems. Theorems: the number of conditional-directive passes is linear in the token count "
+        "explanation": "Monitor + theorems. Theorems: the scanner never fails and slices only at character boundaries (lex_never_fails, lex_slices_on_char_boundaries); the number of conditional-directive passes is linear in the token count "
                        "(passes_linear), token lengths sum to the input length, line-builder references stay valid for every control "
                        "flow; every model function is total. Monitor: every case runs under catch_unwind with a 20 s hang detector "
                        "(two orders of magnitude above the slowest legitimate case), debug build (overflow and bounds checks on); "
@@ -295,7 +295,7 @@ PROPS = {
         ],
         "oracle_prefixes": ["lex"],
         "abnormal_binding": True,
-        "explanation": "Theorems about the exact Lean model of the lexer (lossless, one Eof last, blank-only leading whitespace, "
+        "explanation": "Theorems about the exact Lean model of the lexer (total, all boundaries on character boundaries of well-formed UTF-8, lossless, one Eof last, blank-only leading whitespace, "
                        "non-blank starts, SIMD routine = scalar routine, perfect-hash keyword lookup = table spec); the model is "
                        "tied to DelphiLexer::lex by token-by-token differential execution on generated inputs.",
         "assumptions": ["input is valid UTF-8 (a Rust &str); the model works on bytes and agrees with the char-based code on valid UTF-8"],
